@@ -93,7 +93,13 @@ theorem readStream_ok_iff (H : Bytes → Bytes) (apply : M → Bytes → Option 
 
 theorem hexVal_hexChar (n : Nat) (h : n < 16) : hexVal (hexChar n) = some n := by
   unfold hexVal hexChar
-  split <;> split <;> first | (simp; omega) | (split <;> first | (simp; omega) | omega)
+  by_cases h10 : n < 10
+  · have : 48 ≤ 48 + n ∧ 48 + n ≤ 57 := by omega
+    simp [h10, this]
+  · have a : ¬ (48 ≤ 87 + n ∧ 87 + n ≤ 57) := by omega
+    have b : 97 ≤ 87 + n ∧ 87 + n ≤ 102 := by omega
+    rw [if_neg h10, if_neg a, if_pos b]
+    congr 1; omega
 
 theorem hexChar_range (n : Nat) (h : n < 16) : 48 ≤ hexChar n ∧ hexChar n ≤ 102 := by
   unfold hexChar; split <;> omega
@@ -170,7 +176,15 @@ theorem scanLine_encoded (d nm : Bytes) (hd : DigestOK d) (hn : nm = nMeta ∨ n
   simp only [List.cons_append, List.nil_append] at hp ⊢
   rw [hp]
   simp only [hne, if_false]
-  rcases hn with rfl | rfl <;> decide
+  have t1 : skipSpaces (32 :: 32 :: nMeta) = nMeta := by decide
+  have t2 : skipSpaces (32 :: 32 :: nState) = nState := by decide
+  have u1 : takeToken nMeta = nMeta := by decide
+  have u2 : takeToken nState = nState := by decide
+  have w1 : spaceWidth (32 :: 32 :: nMeta) = 1 := by decide
+  have w2 : spaceWidth (32 :: 32 :: nState) = 1 := by decide
+  rcases hn with rfl | rfl
+  · simp only [w1, t1, u1]; simp [nMeta]
+  · simp only [w2, t2, u2]; simp [nState]
 
 theorem dropCR_encoded (x nm : Bytes) (hn : nm = nMeta ∨ nm = nState) :
     dropCR (x ++ ([32, 32] ++ nm)) = x ++ ([32, 32] ++ nm) := by
@@ -231,5 +245,341 @@ theorem parseSums_encodeSums (swap : Bool) (hm hs : Bytes) (h1 : DigestOK hm) (h
 theorem sumsOK_encodeSums (swap : Bool) (hm hs : Bytes) (h1 : DigestOK hm) (h2 : DigestOK hs) :
     SumsOK hm hs (encodeSums swap hm hs) := by
   refine ⟨_, parseSums_encodeSums swap hm hs h1 h2, ?_, ?_, ?_⟩ <;> cases swap <;> simp
+
+/-! ### ustar layout -/
+
+/-- consecutive regions from offset `a` to offset `b` -/
+def Contig : Nat → List Region → Nat → Prop
+  | a, [], b => a = b
+  | a, r :: rs, b => r.start = a ∧ Contig (a + r.len) rs b
+
+theorem layoutFrom_contig (i off : Nat) (sizes : List Nat) :
+    Contig off (layoutFrom i off sizes) (off + total sizes) := by
+  induction sizes generalizing i off with
+  | nil => simp [layoutFrom, Contig, total]
+  | cons n ns ih =>
+    have := ih (i + 1) (off + slot n)
+    simp only [layoutFrom, Contig, total, true_and]
+    have e1 : off + 512 + n + padLen n = off + slot n := by simp [slot]; omega
+    have e2 : off + (slot n + total ns) = off + slot n + total ns := by omega
+    rw [e1, e2]; exact this
+
+theorem contig_bounds {a b : Nat} {rs : List Region} (h : Contig a rs b) :
+    a ≤ b ∧ ∀ r ∈ rs, a ≤ r.start ∧ r.start + r.len ≤ b := by
+  induction rs generalizing a with
+  | nil => simp [Contig] at h; subst h; simp
+  | cons r rs ih =>
+    obtain ⟨h1, h2⟩ := h
+    obtain ⟨i1, i2⟩ := ih h2
+    refine ⟨by omega, ?_⟩
+    intro x hx
+    rcases List.mem_cons.mp hx with rfl | hx
+    · omega
+    · have := i2 x hx; omega
+
+theorem contains_iff (r : Region) (p : Nat) : r.contains p = true ↔ r.start ≤ p ∧ p < r.start + r.len := by
+  simp [Region.contains]
+
+/-- consecutive regions cover every position between their ends exactly once -/
+theorem contig_cover {a b : Nat} {rs : List Region} (h : Contig a rs b) (p : Nat) (ha : a ≤ p) (hb : p < b) :
+    ∃ r ∈ rs, r.contains p = true ∧ ∀ r' ∈ rs, r'.contains p = true → r' = r := by
+  induction rs generalizing a with
+  | nil => simp [Contig] at h; omega
+  | cons r rs ih =>
+    obtain ⟨h1, h2⟩ := h
+    by_cases hp : p < a + r.len
+    · refine ⟨r, List.mem_cons_self .., (contains_iff r p).mpr (by omega), ?_⟩
+      intro r' hr' hc
+      rcases List.mem_cons.mp hr' with rfl | hr'
+      · rfl
+      · have := (contig_bounds h2).2 r' hr'
+        have := (contains_iff r' p).mp hc
+        omega
+    · obtain ⟨x, hx, hxc, hxu⟩ := ih h2 (by omega)
+      refine ⟨x, List.mem_cons_of_mem _ hx, hxc, ?_⟩
+      intro r' hr' hc
+      rcases List.mem_cons.mp hr' with rfl | hr'
+      · have := (contains_iff r' p).mp hc; omega
+      · exact hxu r' hr' hc
+
+theorem classify_eq_some {sizes : List Nat} {p : Nat} {r : Region} (hr : r ∈ layout sizes)
+    (hc : r.contains p = true) (hu : ∀ r' ∈ layout sizes, r'.contains p = true → r' = r) :
+    classify sizes p = some r.cls := by
+  unfold classify
+  cases hf : (layout sizes).find? (·.contains p) with
+  | none =>
+    have := List.find?_eq_none.mp hf r hr
+    simp [hc] at this
+  | some x =>
+    have hx := List.mem_of_find?_eq_some hf
+    have hxc := List.find?_some hf
+    simp [hu x hx hxc]
+
+/-! ### truncation -/
+
+def sizesOf (ms : List (Bytes × Bytes)) : List Nat := ms.map (·.2.length)
+
+theorem lastDataEnd_ge (off n : Nat) (ns : List Nat) : off + 512 ≤ lastDataEnd off (n :: ns) := by
+  induction ns generalizing off n with
+  | nil => simp [lastDataEnd]
+  | cons m ns ih =>
+    have := ih (off + slot n) m
+    simp only [lastDataEnd]
+    have : 0 ≤ slot n := Nat.zero_le _
+    omega
+
+theorem truncFrom_nil_members (off cut : Nat) : (truncFrom off [] cut).members = [] := by
+  unfold truncFrom
+  split; · rfl
+  split; · rfl
+  split; · rfl
+  split <;> rfl
+
+/-- cut before the last member's data is complete: the reader fails, or ends cleanly having
+    seen only a strict prefix of the members -/
+theorem truncFrom_before_last (off : Nat) (ms : List (Bytes × Bytes)) (cut : Nat)
+    (h : cut < lastDataEnd off (sizesOf ms)) :
+    (truncFrom off ms cut).ending = .err ∨
+      ∃ k, k < ms.length ∧ truncFrom off ms cut = ⟨(ms.take k).map full, .eof⟩ := by
+  induction ms generalizing off with
+  | nil => simp [sizesOf, lastDataEnd] at h
+  | cons x ms ih =>
+    unfold truncFrom
+    by_cases c1 : cut ≤ off
+    · right; exact ⟨0, by simp, by simp [c1]⟩
+    by_cases c2 : cut < off + 512
+    · left; simp [c1, c2]
+    by_cases c3 : cut < off + 512 + x.2.length
+    · left; simp [c1, c2, c3]
+    cases ms with
+    | nil =>
+      simp [sizesOf, lastDataEnd] at h
+      omega
+    | cons y ms' =>
+      by_cases c4 : cut < off + slot x.2.length
+      · right; exact ⟨1, by simp, by simp [c1, c2, c3, c4]⟩
+      · have h' : cut < lastDataEnd (off + slot x.2.length) (sizesOf (y :: ms')) := by
+          simpa [sizesOf, lastDataEnd] using h
+        simp only [c1, c2, c3, c4, if_false]
+        rcases ih (off + slot x.2.length) h' with he | ⟨k, hk, hs⟩
+        · left; simpa [consM] using he
+        · right
+          refine ⟨k + 1, by simpa using hk, ?_⟩
+          rw [hs]; simp [consM]
+
+/-- cut at or after the end of the last member's data: every member is seen complete -/
+theorem truncFrom_after_last (off : Nat) (ms : List (Bytes × Bytes)) (cut : Nat)
+    (h : lastDataEnd off (sizesOf ms) ≤ cut) :
+    (truncFrom off ms cut).members = ms.map full := by
+  induction ms generalizing off with
+  | nil => simpa using truncFrom_nil_members off cut
+  | cons x ms ih =>
+    cases ms with
+    | nil =>
+      simp [sizesOf, lastDataEnd] at h
+      unfold truncFrom
+      have c1 : ¬ cut ≤ off := by omega
+      have c2 : ¬ cut < off + 512 := by omega
+      have c3 : ¬ cut < off + 512 + x.2.length := by omega
+      by_cases c4 : cut < off + slot x.2.length
+      · simp [c1, c2, c3, c4]
+      · simp [c1, c2, c3, c4, consM, truncFrom_nil_members]
+    | cons y ms' =>
+      have h' : lastDataEnd (off + slot x.2.length) (sizesOf (y :: ms')) ≤ cut := by
+        simpa [sizesOf, lastDataEnd] using h
+      have hg := lastDataEnd_ge (off + slot x.2.length) y.2.length (sizesOf ms')
+      have hs : slot x.2.length = 512 + x.2.length + padLen x.2.length := rfl
+      have hg' : off + slot x.2.length + 512 ≤ cut := by
+        have : sizesOf (y :: ms') = y.2.length :: sizesOf ms' := rfl
+        rw [this] at h'; omega
+      unfold truncFrom
+      have c1 : ¬ cut ≤ off := by omega
+      have c2 : ¬ cut < off + 512 := by omega
+      have c3 : ¬ cut < off + 512 + x.2.length := by omega
+      have c4 : ¬ cut < off + slot x.2.length := by omega
+      simp only [c1, c2, c3, c4, if_false, consM]
+      rw [ih (off + slot x.2.length) h']
+      simp
+
+/-! ### single-byte changes -/
+
+/-- member `i` with byte `k` of its data set to `val` -/
+def setByte (ms : List (Bytes × Bytes)) (i k val : Nat) : List (Bytes × Bytes) :=
+  match ms[i]? with
+  | none => ms
+  | some x => ms.set i (x.1, x.2.set k val)
+
+theorem setByte_cons_succ (x : Bytes × Bytes) (ms : List (Bytes × Bytes)) (i k val : Nat) :
+    setByte (x :: ms) (i + 1) k val = x :: setByte ms i k val := by
+  simp only [setByte, List.getElem?_cons_succ]
+  cases ms[i]? <;> simp
+
+/-- every view after a single-byte change: the reader fails, or nothing changed for it, or
+    exactly one data byte of one member changed -/
+theorem flipFrom_shape (val off : Nat) (ms : List (Bytes × Bytes)) (pos : Nat) :
+    ∀ v ∈ flipFrom val off ms pos,
+      v.ending = .err ∨ v = ⟨ms.map full, .eof⟩ ∨
+      ∃ i k, i < ms.length ∧ v = ⟨(setByte ms i k val).map full, .eof⟩ := by
+  induction ms generalizing off with
+  | nil =>
+    intro v hv
+    unfold flipFrom at hv
+    split at hv <;> simp at hv <;> subst hv <;> simp
+  | cons x ms ih =>
+    intro v hv
+    unfold flipFrom at hv
+    split at hv
+    · split at hv
+      · simp at hv
+        rcases hv with rfl | rfl
+        · right; left; rfl
+        · left; rfl
+      · simp at hv; subst hv; left; rfl
+    · split at hv
+      · simp at hv; subst hv
+        right; right
+        refine ⟨0, pos - (off + 512), by simp, ?_⟩
+        simp [setByte, full]
+      · split at hv
+        · simp at hv; subst hv; right; left; rfl
+        · simp only [List.mem_map] at hv
+          obtain ⟨w, hw, rfl⟩ := hv
+          rcases ih _ w hw with h | h | ⟨i, k, hi, h⟩
+          · left; simpa [consM] using h
+          · right; left; subst h; simp [consM]
+          · right; right
+            refine ⟨i + 1, k, by simpa using hi, ?_⟩
+            subst h
+            simp [consM, setByte_cons_succ]
+
+theorem cat_map_full_setByte_other (ms : List (Bytes × Bytes)) (i k val : Nat) (nm : Bytes)
+    (h : ∀ x, ms[i]? = some x → x.1 ≠ nm) :
+    cat nm ((setByte ms i k val).map full) = cat nm (ms.map full) := by
+  induction ms generalizing i with
+  | nil => simp [setByte]
+  | cons y ys ih =>
+    cases i with
+    | zero =>
+      have hy : y.1 ≠ nm := h y (by simp)
+      simp [setByte, cat, full, hy]
+    | succ j =>
+      rw [setByte_cons_succ]
+      have := ih j (fun x hx => h x (by simpa using hx))
+      simp only [cat, List.map_cons, List.filter_cons] at this ⊢
+      split <;> simp_all
+
+theorem metas_map_full_setByte_other (ms : List (Bytes × Bytes)) (i k val : Nat)
+    (h : ∀ x, ms[i]? = some x → x.1 ≠ nMeta) :
+    metas ((setByte ms i k val).map full) = metas (ms.map full) := by
+  induction ms generalizing i with
+  | nil => simp [setByte]
+  | cons y ys ih =>
+    cases i with
+    | zero =>
+      have hy : y.1 ≠ nMeta := h y (by simp)
+      simp [setByte, metas, full, hy]
+    | succ j =>
+      rw [setByte_cons_succ]
+      have := ih j (fun x hx => h x (by simpa using hx))
+      simp only [metas, List.map_cons, List.filter_cons] at this ⊢
+      split <;> simp_all
+
+theorem clean_map_full_setByte (ms : List (Bytes × Bytes)) (i k val : Nat) :
+    Clean ((setByte ms i k val).map full) ↔ Clean (ms.map full) := by
+  induction ms generalizing i with
+  | nil => simp [setByte]
+  | cons y ys ih =>
+    cases i with
+    | zero => simp [setByte, Clean, full]
+    | succ j =>
+      rw [setByte_cons_succ]
+      have := ih j
+      simp only [Clean, List.map_cons, List.forall_mem_cons] at this ⊢
+      rw [this]
+
+theorem classify_some_mem {sizes : List Nat} {p : Nat} {c : Cls} (h : classify sizes p = some c) :
+    ∃ r ∈ layout sizes, r.contains p = true ∧ r.cls = c := by
+  unfold classify at h
+  cases hf : (layout sizes).find? (·.contains p) with
+  | none => simp [hf] at h
+  | some x =>
+    simp [hf] at h
+    exact ⟨x, List.mem_of_find?_eq_some hf, by simpa using List.find?_some hf, h⟩
+
+theorem layoutFrom_cons (i off n : Nat) (ns : List Nat) :
+    layoutFrom i off (n :: ns) =
+      ⟨.header i, off, 512⟩ :: ⟨.data i, off + 512, n⟩ :: ⟨.pad i, off + 512 + n, padLen n⟩ ::
+        layoutFrom (i + 1) (off + slot n) ns := rfl
+
+/-- a changed padding byte changes nothing for the reader -/
+theorem flipFrom_pad (val i off : Nat) (ms : List (Bytes × Bytes)) (pos : Nat) (r : Region)
+    (hr : r ∈ layoutFrom i off (sizesOf ms)) (hc : r.contains pos = true) (hcls : ∃ j, r.cls = .pad j) :
+    flipFrom val off ms pos = [⟨ms.map full, .eof⟩] := by
+  induction ms generalizing i off with
+  | nil =>
+    simp [sizesOf, layoutFrom] at hr
+    subst hr; obtain ⟨j, hj⟩ := hcls; cases hj
+  | cons x ms ih =>
+    have hsz : sizesOf (x :: ms) = x.2.length :: sizesOf ms := rfl
+    rw [hsz, layoutFrom_cons] at hr
+    have hcp := (contains_iff r pos).mp hc
+    obtain ⟨j, hj⟩ := hcls
+    simp only [List.mem_cons] at hr
+    rcases hr with rfl | rfl | rfl | hr
+    · cases hj
+    · cases hj
+    · simp only at hcp
+      unfold flipFrom
+      have c1 : ¬ pos < off + 512 := by omega
+      have c2 : ¬ pos < off + 512 + x.2.length := by omega
+      have c3 : pos < off + slot x.2.length := by simp only [slot]; omega
+      simp [c1, c2, c3]
+    · have hb := (contig_bounds (layoutFrom_contig (i + 1) (off + slot x.2.length) (sizesOf ms))).2 r hr
+      have hs : slot x.2.length = 512 + x.2.length + padLen x.2.length := rfl
+      unfold flipFrom
+      have c1 : ¬ pos < off + 512 := by omega
+      have c2 : ¬ pos < off + 512 + x.2.length := by omega
+      have c3 : ¬ pos < off + slot x.2.length := by omega
+      simp only [c1, c2, c3, if_false]
+      rw [ih (i + 1) (off + slot x.2.length) hr]
+      simp [consM]
+
+/-- a changed data byte of member `j` changes exactly that byte for the reader -/
+theorem flipFrom_data (val i off : Nat) (ms : List (Bytes × Bytes)) (pos : Nat) (r : Region) (j : Nat)
+    (hr : r ∈ layoutFrom i off (sizesOf ms)) (hc : r.contains pos = true) (hcls : r.cls = .data j) :
+    i ≤ j ∧ flipFrom val off ms pos = [⟨(setByte ms (j - i) (pos - r.start) val).map full, .eof⟩] := by
+  induction ms generalizing i off with
+  | nil =>
+    simp [sizesOf, layoutFrom] at hr
+    subst hr; cases hcls
+  | cons x ms ih =>
+    have hsz : sizesOf (x :: ms) = x.2.length :: sizesOf ms := rfl
+    rw [hsz, layoutFrom_cons] at hr
+    have hcp := (contains_iff r pos).mp hc
+    simp only [List.mem_cons] at hr
+    rcases hr with rfl | rfl | rfl | hr
+    · cases hcls
+    · simp only at hcp
+      simp only [Cls.data.injEq] at hcls
+      subst hcls
+      refine ⟨Nat.le_refl _, ?_⟩
+      unfold flipFrom
+      have c1 : ¬ pos < off + 512 := by omega
+      have c2 : pos < off + 512 + x.2.length := by omega
+      simp [c1, c2, setByte, full]
+    · cases hcls
+    · have hb := (contig_bounds (layoutFrom_contig (i + 1) (off + slot x.2.length) (sizesOf ms))).2 r hr
+      have hs : slot x.2.length = 512 + x.2.length + padLen x.2.length := rfl
+      obtain ⟨hij, hf⟩ := ih (i + 1) (off + slot x.2.length) hr
+      refine ⟨by omega, ?_⟩
+      unfold flipFrom
+      have c1 : ¬ pos < off + 512 := by omega
+      have c2 : ¬ pos < off + 512 + x.2.length := by omega
+      have c3 : ¬ pos < off + slot x.2.length := by omega
+      simp only [c1, c2, c3, if_false]
+      rw [hf]
+      have : j - i = (j - (i + 1)) + 1 := by omega
+      rw [this, setByte_cons_succ]
+      simp [consM]
 
 end CV.Tar
